@@ -1930,7 +1930,8 @@ class Selector(SelectorBase, _SignatureSelector):
     @objects.setter
     def objects(self, objects):
         if isinstance(objects, collections.abc.Mapping):
-            self.names = objects
+            # (a copy: the mapping handed in stays the caller's)
+            self.names = dict(objects)
             self._objects = list(objects.values())
         else:
             self.names = {}
